@@ -39,6 +39,9 @@ func RunCases(c *vk.Ctx, srv *drive.Srv, label string, n int, opt gen.Options, c
 			if o.HierarchyEvery > 0 && i%o.HierarchyEvery == 0 && !o.Algebra {
 				o.Hierarchy, o.Wide = true, false
 			}
+			if o.MutualEvery > 0 && i%o.MutualEvery == 1 && !o.Algebra && !o.Hierarchy {
+				o.Mutual, o.Wide = true, false
+			}
 			gc, store := Generate(c, srv, r, fmt.Sprintf("%s-%s-%d", c.ID, label, i), o)
 			if gc == nil {
 				return
